@@ -867,3 +867,94 @@ def rule_parse_quote_shape(ctx):
                 for txt, tok in _adjacent_splices(mac["tokens"]):
                     ctx.report(f"parse-quote:{key}:{txt[:40]}", ctx.where(f, tok), f"`parse_quote!` in `{fn.qual}` splices `{txt}` back to back: whether the result parses depends on how the first spliced part ends (e.g. a where-clause with or without a trailing comma), and `parse_quote!` panics when it does not - append to the parsed value (`predicates.extend(..)`) or separate the parts by literal tokens", {})
     ctx.floor("parse_quote! sites", n, 14)
+
+
+def _tail_of(stmts):
+    """the value a block yields: its last statement as an expression (a trailing `quote! {..}` is a Stmt::Macro)"""
+    if not stmts:
+        return None
+    last = stmts[-1]
+    if A.kind(last) == "Stmt::Expr" and last.get("1") is None:
+        return last["0"]
+    if A.kind(last) == "Stmt::Expr":
+        return last["0"]
+    if A.kind(last) == "Stmt::Macro":
+        return {"_": "Expr::Macro", "attrs": [], "mac": last["mac"]}
+    return None
+
+
+def _where_arg_values(files, fn, e, depth=0):
+    """leaf values an expression handed to `add_extra_where_clauses` can take: [(kind, text, node, fn)] with kind in
+    'where-template' | 'other' ; follows `if`/`match` branches, local bindings and parameters (to every call site)"""
+    e = A.peel(e)
+    k = A.kind(e)
+    if depth > 9:
+        return [("other", A.render(e)[:60], e, fn)]
+    if k == "Expr::Macro" and A.path_last(e["mac"]["path"]) in ("quote", "quote_spanned"):
+        toks = e["mac"]["tokens"]
+        first = toks[0] if toks else None
+        ok = first is not None and A.kind(first) == "Ident" and first["sym"] == "where"
+        return [("where-template" if ok else "other", A.tokens_text(toks)[:60], e, fn)]
+    if k == "Expr::If":
+        out = []
+        tb = _tail_of(e["then_branch"]["stmts"])
+        if tb is not None:
+            out += _where_arg_values(files, fn, tb, depth + 1)
+        eb = e.get("else_branch")
+        eb = eb[1] if isinstance(eb, list) else eb
+        if eb is not None:
+            out += _where_arg_values(files, fn, eb, depth + 1)
+        return out or [("other", A.render(e)[:60], e, fn)]
+    if k == "Expr::Block" and _tail_of(e["block"]["stmts"]) is not None:
+        return _where_arg_values(files, fn, _tail_of(e["block"]["stmts"]), depth + 1)
+    if k == "Expr::Match":
+        out = []
+        for arm in e["arms"]:
+            out += _where_arg_values(files, fn, arm["body"], depth + 1)
+        return out
+    if k == "Expr::MethodCall" and e["method"]["sym"] in ("clone", "to_token_stream", "into_token_stream"):
+        return _where_arg_values(files, fn, e["receiver"], depth + 1)
+    if k == "Expr::Path" and "::" not in (A.path_str(e) or "::"):
+        nm = A.path_str(e)
+        b = TY.resolve(fn, nm, (A.span_of(e) or [0])[0])
+        if b is not None and b.get("init") is not None:
+            return _where_arg_values(files, fn, b["init"], depth + 1)
+        if b is not None and b["kind"] == "param":
+            prm = [A.pat_idents(p_["0"]["pat"]) for p_ in fn.node["sig"]["inputs"] if A.kind(p_) == "FnArg::Typed"]
+            pos = next((i for i, ns in enumerate(prm) if ns == [nm]), None)
+            out = []
+            if pos is not None:
+                for rel, f in files.items():
+                    if not rel.startswith("impl/src/"):
+                        continue
+                    for g in A.functions(f):
+                        if g.block is None:
+                            continue
+                        for c, _ in A.find(g.block, "Expr::Call"):
+                            if A.kind(c["func"]) == "Expr::Path" and A.path_last(c["func"]) == fn.name and pos < len(c["args"]):
+                                out += _where_arg_values(files, g, c["args"][pos], depth + 1)
+            if out:
+                return out
+    return [("other", A.render(e)[:60], e, fn)]
+
+
+def rule_where_clause_args(ctx):
+    """WHERE-ARG: `add_extra_where_clauses(generics, tokens)` re-parses `tokens` as a `syn::WhereClause` (`parse_quote!`, which panics when that fails), so every value that can reach the parameter - through locals, `if`/`match` branches and forwarding helpers - is a template that starts with the `where` keyword (an empty list after it is fine: `where` alone parses). `TokenStream::new()` for 'nothing to bound' makes a Mul-like derive on a field-less struct panic."""
+    n = 0
+    for rel, f in sorted(ctx.files.items()):
+        if not rel.startswith("impl/src/"):
+            continue
+        for fn in A.functions(f):
+            if fn.block is None:
+                continue
+            for c, _ in A.find(fn.block, "Expr::Call"):
+                if A.kind(c["func"]) != "Expr::Path" or A.path_last(c["func"]) != "add_extra_where_clauses" or len(c["args"]) != 2:
+                    continue
+                vals = _where_arg_values(ctx.files, fn, c["args"][1])
+                n += 1
+                key = f"{rel}::{fn.qual}:{A.render(c['args'][1])[:30]}"
+                ctx.instance(f"where-arg:{key}", sample={"call in": f"{rel}::{fn.qual}", "values": [(k_, t_) for k_, t_, _, _ in vals][:6]})
+                for k_, t_, node, g in vals:
+                    if k_ != "where-template":
+                        ctx.report(f"where-arg:{key}:{t_[:30]}", ctx.where(g.file, node), f"`add_extra_where_clauses` in `{fn.qual}` can receive `{t_}` (from `{g.qual}`), which is not a `where ..` template: the helper re-parses its argument as a `WhereClause` with `parse_quote!` and panics ('expected `where`') - the derive aborts instead of expanding", {})
+    ctx.floor("add_extra_where_clauses call sites", n, 6)
